@@ -17,11 +17,11 @@ from fractions import Fraction
 
 import numpy as np
 
-from .core import SV
+from .core import SV, LazySqrt
 
 
 def _has_sv(x):
-    if isinstance(x, SV):
+    if isinstance(x, (SV, LazySqrt)):
         return True
     if isinstance(x, np.ndarray):
         return x.dtype == object and any(_has_sv(v) for v in x.flat)
@@ -87,7 +87,9 @@ class _Linalg:
         for v in arr.flat:
             tot = tot + v * v
         tot = SV.lift(tot)
-        return tot.sqrt()
+        if tot.c is not None:
+            return tot.sqrt(nonneg=True)
+        return LazySqrt(tot)  # a sum of squares, kept unevaluated
 
     def det(self, m):
         if not _has_sv(m):
@@ -117,10 +119,16 @@ class NPProxy:
         return getattr(self._np, name)
 
     def array(self, obj, dtype=None, **kw):
-        if dtype in ("float64", float, np.float64) and _has_sv(obj):
-            dtype = object
         if isinstance(obj, SymSet):
             obj = tuple(obj)
+        if dtype in ("float64", float, np.float64):
+            # a float64 array would refuse symbolic entries written into it later: keep exact rationals instead
+            arr = self._np.array(obj, dtype=object, **kw)
+            flat = arr.reshape(-1) if arr.size else arr
+            for i, v in enumerate(flat):
+                if isinstance(v, (float, np.floating, int, np.integer)) and not isinstance(v, bool):
+                    flat[i] = Fraction(v)
+            return arr
         return self._np.array(obj, dtype=dtype, **kw)
 
     def zeros(self, shape, dtype=None, **kw):
